@@ -245,7 +245,7 @@ pub fn main() {
         exit(2)
     };
     let t0 = std::time::Instant::now();
-    let budget: f64 = std::env::var("VX_M_BUDGET").ok().and_then(|s| s.parse().ok()).unwrap_or(if tier == "quick" { 40.0 } else { 900.0 });
+    let budget: f64 = std::env::var("VX_M_BUDGET").ok().and_then(|s| s.parse().ok()).unwrap_or(if tier == "quick" { 40.0 } else { 600.0 });
     let jobs: usize = std::env::var("VX_JOBS").ok().and_then(|s| s.parse().ok()).unwrap_or(16);
     // One child process per scenario (isolation + parallelism).
     let exe = std::env::current_exe().unwrap();
